@@ -74,7 +74,10 @@ func genAbnormalCase(rt *rapid.T, noHook bool) *FmtCase {
 		}
 		nestedOp := &Op{K: "Print", Args: []*Val{vc.leafS(rt, "str", false, false), operand}}
 		if rapid.Bool().Draw(rt, "printf") {
-			nestedOp = &Op{K: "Printf", S: B("n=%v %v"), Args: nestedOp.Args}
+			// (explicit argument indexes set per-call parser state in the nested
+			// printer, which a panic that leaves it must not leave behind)
+			nf := pick(rt, "nestedfmt", []string{"n=%v %v", "n=%v %v", "n=%[1]v %[2]v", "n=%[2]v|%[1]v", "n=%[1]v %v", "n=%[2]*[1]v"})
+			nestedOp = &Op{K: "Printf", S: B(nf), Args: nestedOp.Args}
 		}
 		ops := []*Op{{K: "SafeString", S: B("pre")}, nestedOp, {K: "UnsafeString", S: B("post")}}
 		prog := &Val{K: "safefmt", Ops: ops}
